@@ -20,7 +20,7 @@ const ruleC03 = "generated histories over 2-3 logs with every refusal class incl
 
 var profC03 = vlib.Profile{
 	Prop: "C03", MinLogs: 2, MaxLogs: 3, MinOps: 4, MaxOps: 30,
-	Storages: []string{"mem", "sql"}, MaxJump: 512, OtherLogPct: 35, Decorate: 10, SharedKeys: true, FaultPct: 12, MixOldPct: 8,
+	Storages: []string{"mem", "sql"}, MaxJump: 512, OtherLogPct: 35, Decorate: 10, SharedKeys: true, FaultPct: 16, MixOldPct: 8, DrvFaults: true, CancelPct: 25,
 	Weights: map[string]int{"grow": 22, "refresh": 6, "fork": 12, "wrongold": 10, "badproof": 12, "replay": 4, "garbage": 6, "unkroot": 3, "oddroot": 1, "wrongkey": 6, "wrongorigin": 4, "unknownlog": 4, "smaller": 5, "decorated": 3, "zero": 2, "mismatch": 6},
 }
 
@@ -102,7 +102,7 @@ func diffCps(a, b vlib.Snapshot) string {
 
 func runC03(c *vlib.HistCase) (bool, []string, error) {
 	e := vlib.NewEnv(c)
-	t, closer, err := e.NewInstrumentedWitness()
+	t, closer, err := e.NewFaultTarget() // interface-level and (on SQL) driver-level faults, context cancellation
 	if err != nil {
 		return false, nil, fmt.Errorf("harness: %v", err)
 	}
